@@ -4,6 +4,7 @@
    ai = strconv.Atoi, mt = Regexp.MatchString) are universally quantified: every theorem holds for
    whatever these library calls answer.  "no_nl l" says that l is a text line (what bufio.Scanner
    hands to ParseLine).  The model follows the code as repaired by F14a, F14b and F14c. *)
+From Coq Require Import Sorted.
 From Relay Require Import Base.Prelude Base.AList Model.Filter Model.PlayParse
      Proofs.PlayParse_proofs Proofs.Filter_proofs.
 Local Open Scope string_scope.
@@ -118,6 +119,21 @@ Theorem C20_check_counts_error_lines :
 Proof. exact check_count_is_malformed_count. Qed.
 Print Assumptions C20_check_counts_error_lines.
 
+(* WHAT Check reports: a text exactly for the error lines; the text ends with the offending line,
+   verbatim (the unknown-filter-verb text ends with the verb as written) *)
+Theorem C20_error_text_iff_error :
+  forall pd ro ai re de l, (exists t, error_of pd ro ai re de l = Some t) <-> parse_line pd ro ai l = IError.
+Proof. exact error_of_iff. Qed.
+Print Assumptions C20_error_text_iff_error.
+
+Theorem C20_error_text_names_its_line :
+  forall pd ro ai re de l t,
+    error_of pd ro ai re de l = Some t ->
+    (exists pre, t = pre ++ l) \/
+    (exists v a pre, scan_filter l = Some (v, a) /\ verb_of v = VUnknown /\ t = pre ++ v).
+Proof. exact error_text_names_its_line. Qed.
+Print Assumptions C20_error_text_names_its_line.
+
 (* ---- whole files (LoadFile / ParseByLine): ls are the newline-ended lines (LF, or CRLF: the \r is
         then the last byte of the line and is dropped), last is the text after the final newline.
         One item per physical line, ParseLine of that line, in order - the unterminated last
@@ -144,6 +160,24 @@ Theorem C20_file_check_iff_malformed :
      exists l, In l (phys ls last) /\ malformed pd ro ai (drop_cr l)).
 Proof. exact file_check_iff_malformed. Qed.
 Print Assumptions C20_file_check_iff_malformed.
+
+(* Check's report for any file text: exactly the malformed lines, each once, in the order of the
+   file, each with its own 1-based physical line number (the code prints the texts only; the
+   number is the model's account of where each text comes from) and the text ParseLine formats;
+   as many entries as Check counts; empty iff no line is malformed *)
+Theorem C20_check_reports_exactly_the_malformed_lines :
+  forall pd ro ai re de ls last,
+    (forall l, In l ls -> no_nl l) -> no_nl last ->
+    let lines := map drop_cr (phys ls last) in
+    let rep := check_report pd ro ai re de (file_lines (unlines ls ++ last)) in
+    (forall n t, In (n, t) rep <->
+       exists l, nth_error lines (N.to_nat n - 1) = Some l /\ (1 <= n)%N /\
+                 malformed pd ro ai l /\ error_of pd ro ai re de l = Some t) /\
+    StronglySorted (fun a b => (fst a < fst b)%N) rep /\
+    N.of_nat (List.length rep) = check_count (load_text pd ro ai (unlines ls ++ last)) /\
+    (rep = [] <-> ~ exists l, In l lines /\ malformed pd ro ai l).
+Proof. exact check_reports_exactly_the_malformed_lines. Qed.
+Print Assumptions C20_check_reports_exactly_the_malformed_lines.
 
 (* EVIDENCE ONLY, about the loader as it was BEFORE F14d (load_text_limited = the same loader with
    bufio.Scanner's default limit): that model violates the clause - a file that is one line of
@@ -281,6 +315,10 @@ Example C20_witness :
   (* a file with a CRLF line, an empty line and an unterminated last line *)
   load_text ex_pd ex_ro ex_ai (str [35;32;99;13;10; 10; 91;53;93;32;104;10; 103;111]%N) =
     [IComment false "c"; ISend "" 0 "" 0 0; IError; ISend "go" 0 "" 0 0] /\
+  check_report ex_pd ex_ro ex_ai (fun _ => "E") (fun _ => "D")
+      (file_lines (str [35;32;99;13;10; 10; 91;53;93;32;104;10; 103;111;10; 124;88;62]%N)) =
+    [(3%N, "unknown delay time format: [5] h");
+     (5%N, "malformed filter command; first argument not one of [+,-,a,d,r,accept,deny,reset], but was X")] /\
   (* a line of 65536 bytes is a line like any other *)
   List.length (load_text ex_pd ex_ro ex_ai (rep 65536 "=")) = 1%nat /\
   (* filter: accept [a-h], deny [0-9]; then reset *)
